@@ -239,6 +239,7 @@ fn refs_of(v: &Json) -> Vec<(String, usize)> {
 /// Apply one edit; returns {ok, id}.  A panic inside walrus is reported as ok=false, id=-2.
 pub fn apply(m: &mut Module, e: &Json) -> Json {
     let op = e["op"].as_str().unwrap_or("");
+    let mut extra: Option<(Vec<usize>, Vec<usize>)> = None;
     let r = catch_unwind(AssertUnwindSafe(|| -> (bool, i64) {
         match op {
             "add_export" => {
@@ -389,13 +390,30 @@ pub fn apply(m: &mut Module, e: &Json) -> Json {
                 let Some(f) = find_id(m.funcs.iter().map(|f| f.id()), fidx) else { return (false, -1) };
                 let res = resolve(m, &refs_of(&e["refs"]));
                 let results: Vec<ValType> = m.types.get(m.funcs.get(f).ty()).results().to_vec();
+                // the replacement body reads every parameter it is handed (and drops it)
+                let mut handed: Vec<usize> = vec![];
+                let mut fill = |body: &mut InstrSeqBuilder, args: &Vec<LocalId>| {
+                    handed = args.iter().map(|a| a.index()).collect();
+                    for a in args {
+                        body.local_get(*a).drop();
+                    }
+                    build_body(body, &res, &results);
+                };
                 let r = if op == "replace_imported" {
-                    m.replace_imported_func(f, |(body, _args)| build_body(body, &res, &results))
+                    m.replace_imported_func(f, |(body, args)| fill(body, args))
                 } else {
-                    m.replace_exported_func(f, |(body, _args)| build_body(body, &res, &results))
+                    m.replace_exported_func(f, |(body, args)| fill(body, args))
                 };
                 match r {
-                    Ok(id) => (true, id.index() as i64),
+                    Ok(id) => {
+                        // the parameters of the function that now exists
+                        let params: Vec<usize> = match &m.funcs.get(id).kind {
+                            FunctionKind::Local(lf) => lf.args.iter().map(|a| a.index()).collect(),
+                            _ => vec![usize::MAX],
+                        };
+                        extra = Some((handed, params));
+                        (true, id.index() as i64)
+                    }
                     Err(_) => (false, -1),
                 }
             }
@@ -403,7 +421,10 @@ pub fn apply(m: &mut Module, e: &Json) -> Json {
         }
     }));
     match r {
-        Ok((ok, id)) => json!({"ok": ok, "id": id}),
+        Ok((ok, id)) => match extra {
+            Some((handed, params)) => json!({"ok": ok, "id": id, "handed": handed, "params": params}),
+            None => json!({"ok": ok, "id": id}),
+        },
         Err(p) => json!({"ok": false, "id": -2, "panic": crate::run::short(&crate::run::panic_msg(p))}),
     }
 }
